@@ -87,6 +87,34 @@ NOTES = {
                "a shortcut name called with one positional argument plus keyword arguments"),
     "C20_m1": ("lru_cache on calc_ast_hash (keyed by node identity)",
                "hash a query, edit the same tree in place, hash it again"),
+    "C04_m3": ("per-function source cache in parse_as_ast returns the stored tree on a miss; _rewrite_captured_vars edits it in place, so the cache holds the first call's constants",
+               "the same function object handed to the same operator twice with the captured name rebound in between"),
+    "C13_m3": ("as_literal normalises int/float subclasses with int(p)/float(p): bool is an int, True becomes 1",
+               "a bool reaching as_literal: captured variable or declared default of a typed method / func_adl_callable"),
+    "C05_m3": ("_inner_binders returns the body's (empty) binder set for a plainly called lambda instead of the union with its arguments' binders",
+               "helper calling a second inlinable helper with a lambda inside the argument, call-site parameter named like that lambda's parameter"),
+    "C14_m3": ("visit_Subscript tests the unvisited node.value for First() at the top instead of the visited value at the end",
+               "an index that reaches First(Select(seq, j: package)) only through name substitution from an earlier stage"),
+    "C06_m3": ("dataclass parameters from dataclasses.fields (declaration/MRO order) instead of inspect.signature",
+               "a dataclass whose keyword-only field is declared before a positional one (kw_only base, plain subclass), called positionally"),
+    "C15_m3": ("extract_metadata appends a dictionary only if not already in the list",
+               ">= 2 MetaData wrappers with equal dictionaries"),
+    "C07_m3": ("has_lambda_arg looks at the call as written (r_node.args) instead of the default-filled call",
+               "a stream operator with a statically resolvable return annotation (Where) inside a lambda, its lambda passed by keyword"),
+    "C16_m3": ("lookup_query_metadata: key-presence test became a truthiness test",
+               "a falsy value (False, 0, '', []) set after or instead of a truthy one"),
+    "C08_m3": ("remap_from_lambda merges {var: type, **known_types}: an enclosing parameter of the same name wins",
+               "a nested lambda re-using the parameter name of an enclosing lambda"),
+    "C17_m3": ("operator names compiled into a regex used with .match (prefix) instead of fullmatch",
+               "a non-operator method whose name begins with an operator name (SumTrackPt, CountJets, FirstTrack)"),
+    "C09_m3": ("remap_from_lambda merge order swapped (as C08_m3): inner parameter typed with the outer type",
+               "nested lambda at depth >= 2 re-using an enclosing parameter name; callbacks of the inner class then never fire"),
+    "C18_m3": ("negative literal index folded in place (s.operand.value = -value) on a node shared by every use of a lambda parameter",
+               "a negative constant index reaching literals through a lambda parameter used more than once"),
+    "C20_m3": ("calc_ast_hash memoises the md5 on the node as a non-field attribute; shallow copies keep it",
+               "hash, then transform (remove_empty_metadata / in-place backend passes), then hash again"),
+    "C01_m3": ("_resolve_called_lambdas.visit_ListComp pushes the hide-map before visiting the first iterable",
+               "a captured helper with a comprehension whose loop variable re-uses the helper's parameter name"),
     "C20_m2": ("the dump is encoded with errors='replace': non-ASCII characters collapse to '?'",
                "two queries differing in one non-ASCII character at the same position"),
 }
